@@ -11,7 +11,7 @@ from .threads_common import run_clients
 
 NAME = "T7"
 PROPERTY = "C07"
-RUNS = {"quick": 96, "thorough": 4000}
+RUNS = {"quick": 64, "thorough": 4000}
 RUN_WALL_CAP = 120.0
 REQUIRED_PROBES = {"quick": ["same_shape_games_in_two_clients", "interleaved_calls_compared"], "thorough": ["same_shape_games_in_two_clients", "interleaved_calls_compared"]}
 COMPONENTS = {"real": ["toqito.nonlocal_games.NonlocalGame value methods (classical, NPA level 1, non-signaling) called from 2..3 real threads (own objects each)", "cvxpy + SCS/Clarabel (never pre-empted)"], "stub": ["thread scheduling: baton passing, pre-emption at every Python line of toqito code, decided by the choice source"]}
